@@ -287,7 +287,8 @@ pub fn gen(r: &mut Rng) -> (Program, World) {
         bytes_env: w.env_bytes.iter().map(|x| x.0.clone()).collect(),
         int_locals: vec![],
         datum_inputs: datum_inputs.clone(),
-        tokens: if with_tok { vec!["Tok".into()] } else { vec![] },
+        // with a second name under the same policy, outputs can hold both
+        tokens: if two_names { vec!["Tok".into(), "Tok2".into()] } else if with_tok { vec!["Tok".into()] } else { vec![] },
     };
 
     // locals: chains of integer expressions
@@ -408,6 +409,8 @@ pub fn gen(r: &mut Rng) -> (Program, World) {
                 let mut ts = vec![];
                 if name == "Sender" {
                     ts.push((POLICY_TOK.to_vec(), b"TK".to_vec(), 1_000_000_000_000 + r.below(1000) as i128));
+                    // the second name under the same policy, so that outputs holding both can be funded
+                    ts.push((POLICY_TOK.to_vec(), b"T2".to_vec(), 1_000_000_000_000 + r.below(1000) as i128));
                     ts.push((POLICY_ANY.to_vec(), b"ANY".to_vec(), 1_000_000_000_000 + r.below(1000) as i128));
                 } else if r.chance(1, 3) {
                     ts.push((POLICY_TOK.to_vec(), b"TK".to_vec(), 1 + r.below(50) as i128));
